@@ -122,6 +122,19 @@ CLAIMED["C14"] = dict(
          "demand-pattern edits, describe().",
     technique="Coq proof (invariant by induction over operation histories) + exact differential check of all views after every operation")
 
+CLAIMED["C18"] = dict(
+    text="Proof: segments are modelled as the connected components of the incidence graph between links and their end nodes, cut "
+         "where a valve sits; any labelling accepted by the executable predicate labels_ok has positive labels and two elements share a "
+         "label exactly when they are joinable without passing a valve (soundness by induction on closure iterations, completeness by "
+         "induction on paths; reuses the C09 graph lemmas). Tie decided inside coqc: the labelling returned by the real valve_segments "
+         "on random multigraphs and valve layers (duplicates, parallel links, dead ends) is accepted by labels_ok, the reported sizes "
+         "count the members, and num_surround / demand_increase / length_increase equal their definitions.",
+    ref="DESIGN.md section 5 C18",
+    note="Trusted: Coq kernel (axiom-free); harness numbering nodes/links. nx.connected_components is not modelled (oracle); its effect is "
+         "validated through labels_ok on every case. The attribute formulas are definitional in the model (tied, not proved). Self-loop "
+         "links are not generated.",
+    technique="Coq proof (graph components characterised via a checked closure) + exact check of the implementation's labelling against it")
+
 NOT_YET = {
 }
 
